@@ -253,20 +253,24 @@ Section Snap.
     - tr; [exact S3|apply IH].
   Qed.
 
+  Lemma s_wait_reset c ids s : sstep s (wait_reset sc c ids s).
+  Proof. apply s_same; [apply wait_reset_tbl|rewrite wait_reset_cl; reflexivity|apply wait_reset_tr]. Qed.
+
   Lemma s_wait_task c g ids s : sstep s (wait_task sc c g ids s).
   Proof.
     unfold wait_task. cbv zeta.
     pose proof (s_wait_start c g ids s) as S1.
     destruct (wait_start c g ids s) as [s1 w1]. cbn [fst] in S1.
-    destruct (w_pending w1); [exact S1|].
+    destruct (w_pending w1); [tr; [exact S1|apply s_wait_reset]|].
     destruct (match e_watch_err_at (sc_env sc) with Some n => Nat.eqb n (snd g) | None => false end);
       [tr; [exact S1|apply s_set_abort]|].
     pose proof (s_deliver c g ids (w_deliv (nth (snd g) (e_waits (sc_env sc)) (mkW [] WTimeout))) s1 w1) as S2.
     destruct (deliver sc c g ids _ s1 w1) as [s2 w2]. cbn [fst] in S2.
     tr; [exact S1|]. tr; [exact S2|].
-    destruct (w_pending w2); [apply s_refl|].
+    destruct (w_pending w2); [apply s_wait_reset|].
     destruct (w_end _).
-    - destruct (match c with AllCurrent => _ | AllNotFound => _ end); [apply s_wait_timeout|apply s_set_abort].
+    - destruct (match c with AllCurrent => _ | AllNotFound => _ end);
+        [tr; [apply s_wait_timeout|apply s_wait_reset]|apply s_set_abort].
     - apply s_set_abort.
   Qed.
 
@@ -293,10 +297,11 @@ Section Snap.
   Lemma s_apply_one g s p : local_ok pl p -> sstep s (apply_one sc pl g s p).
   Proof.
     intros [Hin Hl]. unfold apply_one. destruct (p_local p) as [l|] eqn:EL; [|apply s_refl].
-    pose proof (s_policy_apply_filter s (p_id p)) as P.
-    destruct (policy_apply_filter sc s (p_id p)) as [s1 f1]. cbn [fst] in P.
     assert (RA : forall s0 e a u gg, sstep s0 (rec_add (ev s0 e) (p_id p) SApply a u gg)).
     { intros. tr; [apply s_ev|]. apply s_rec_add. intros _. exact Hin. }
+    destruct (negb (kind_known sc (r_known s) (p_id p))); [apply RA|].
+    pose proof (s_policy_apply_filter s (p_id p)) as P.
+    destruct (policy_apply_filter sc s (p_id p)) as [s1 f1]. cbn [fst] in P.
     destruct (match f1 with FPass => _ | _ => _ end).
     - pose proof (s_kubectl_apply s1 l) as K.
       destruct (kubectl_apply sc s1 l) as [s2 r]. cbn [fst] in K.
